@@ -115,7 +115,11 @@ def serve():
             res = {"status": "harness_timeout", "crumbs": crumbs[-2:],
                    "error": "child exceeded %ss\n%s" % (deadline, "\n".join(ln for ln in lines if not ln.startswith("{"))[-1500:])}
         elif res is None:
-            if os.WIFSIGNALED(st) and crumbs and crumbs[-1].get("armed") is not None:
+            armed = None
+            for c in crumbs:  # the latest "armed" crumb decides (other crumbs -- non-finite product, alarm -- may follow it)
+                if isinstance(c, dict) and "armed" in c:
+                    armed = c["armed"]
+            if os.WIFSIGNALED(st) and os.WTERMSIG(st) != signal.SIGALRM and armed is not None:
                 # the interpreter itself crashed while an allocation failure was armed: a NumPy/SciPy
                 # bug on the NULL-allocation path (e.g. np.float64.__getitem__), not cola behaviour
                 res = {"status": "env_crash", "signal": os.WTERMSIG(st), "crumb": crumbs[-1]}
